@@ -45,12 +45,20 @@ _call = st.builds(
     st.integers(0, 9).map(lambda x: x == 0))
 
 
+@st.composite
+def _maybe_unsorted(draw, c):
+    # a fifth of the charts have their tick groups permuted (tracks not in tick order)
+    if draw(st.integers(0, 4)) == 0:
+        return dict(c, spec=G.unsorted_variant(c["spec"], draw))
+    return c
+
+
 def strat_cases(ctx: Ctx):
     return st.builds(
         lambda c, calls: {"spec": c["spec"], "max_tick": c["max_tick"], "calls": calls},
         st.integers(0, 5).flatmap(lambda mn: G.chart_specs(
             max_segments=ctx.pick(6, 16), max_tracks=2, min_tracks=1, max_notes=25, max_events=1,
-            max_ts=1, max_anchors=0, min_notes=min(mn, 3))),
+            max_ts=1, max_anchors=0, min_notes=min(mn, 3), long_one_in=4)).flatmap(_maybe_unsorted),
         st.lists(_call, min_size=8, max_size=14))
 
 
